@@ -121,6 +121,31 @@ pub fn run(ctx: &Ctx) -> i32 {
             w.check(m.len() as u64, || sdesc(&m), |st| eval_str(&m, st));
         }
     });
+    // 2c. every scalar value (quick: the whole BMP and the boundary scalars of every 4096-block of the
+    //     astral planes) isolated inside a run of another class, so that its UTF-8 bytes are carried by
+    //     C40 / Text / ASCII digits with upper shifts instead of by a run of their own
+    {
+        let thorough = ctx.tier == crate::explore::Tier::Thorough;
+        let carriers: [(&str, &str); 3] = [("ABCDEFGH", "IJKLMNOP"), ("abcdefgh", "ijklmnop"), ("12345678", "12345678")];
+        ctx.par(0x110000 / 0x400, |c, w| {
+            w.label(|| format!("scalar values from U+{:X} inside carrier runs", c * 0x400));
+            for u in c * 0x400..(c + 1) * 0x400 {
+                if !thorough && u >= 0x10000 {
+                    let low = u & 0xFFF;
+                    let edge = low < 0x40 || low >= 0xFC0 || matches!(u & 0x3F, 0 | 0x1F | 0x3F);
+                    if !edge {
+                        continue;
+                    }
+                }
+                if let Some(ch) = char::from_u32(u as u32) {
+                    for (pre, post) in carriers {
+                        let s = format!("{}{}{}", pre, ch, post);
+                        w.check(s.len() as u64, || sdesc(&s), |st| eval_str(&s, st));
+                    }
+                }
+            }
+        });
+    }
     // 3. strings of length 2..3 around the Latin-1 boundaries
     let edge: Vec<char> = [0x1Fu32, 0x20, 0x7E, 0x7F, 0x9F, 0xA0, 0xFF, 0x100].iter().map(|u| char::from_u32(*u).unwrap()).collect();
     ctx.seq(|w| {
@@ -165,7 +190,7 @@ pub fn run(ctx: &Ctx) -> i32 {
         "evaluations": ctx.evaluations(),
         "distinct_nontrivial": ctx.counter("nontrivial"),
         "rule": format!("every Unicode scalar value (1,112,064) as a one-character string through encode_str -> data_codewords -> decode_str, and through utf8_to_latin1; all strings over a 12-character class alphabet \
-(ASCII letters/digit, RS, EOT, e-acute, U+0080, euro, emoji, ~, NBSP, DEL) of length <= {} and over 24 characters of length <= {}, each (up to length 3) also inside the macro 05/06 envelope (length <= 3); a length sweep (runs of 0..130 characters of five classes followed by one of 12 final characters, plain and inside the macro 05 envelope); all strings of length 2..3 over the Latin-1 boundary characters; \
+(ASCII letters/digit, RS, EOT, e-acute, U+0080, euro, emoji, ~, NBSP, DEL) of length <= {} and over 24 characters of length <= {}, each (up to length 3) also inside the macro 05/06 envelope (length <= 3); every scalar value (quick tier: the whole BMP plus, in the astral planes, the first and last 64 scalars of every 4096-block and every scalar whose low six bits are 0, 0x1F or 0x3F; thorough tier: all of them) isolated between two runs of upper-case letters, of lower-case letters and of digits; a length sweep (runs of 0..130 characters of five classes followed by one of 12 final characters, plain and inside the macro 05 envelope); all strings of length 2..3 over the Latin-1 boundary characters; \
 latin1_to_utf8 on all 256 bytes and 65,536 pairs against ISO 8859-1 by rule, utf8_to_latin1 as its inverse. Oracle: round trip; printable Latin-1 => no ECI and Latin-1 bytes (reference decoder R5); otherwise exactly one UTF-8 designator (241 27) first (after a macro codeword) and UTF-8 payload. \
 All cases distinct; non-trivial = UTF-8/ECI path taken or helper defined.", ctx.tier.pick(5, 6), ctx.tier.pick(3, 4)),
         "exhaustive": true,
